@@ -9,7 +9,8 @@ L_Leaves == <<
   LogIota(<<J, I>>, <<>>, 2),
   LogIota(<<K>>, <<>>, 5),
   TenI(<<I, J>>, <<>>, 2, <<1, 0, 1, 1, 1, 0>>),
-  N(3, 0) >>
+  N(3, 0),
+  V("x", RealD) >>
 L_UnOps == <<Op0("exp"), Op0("log")>>
 L_BinOps == <<Op0("add"), Op0("mul")>>
 L_RedOps == <<"add", "mul", "max", "min", "logaddexp", "and", "or">>
